@@ -340,12 +340,74 @@ def check_numpy(ctx, rng, data, rate, width, channels):
             ctx.violation("numpy-second-export-returns-stale-or-modified-values", {"case": case})
 
 
+def check_large_skip(ctx, rng, tmp):
+    """more than 2**20 samples skipped, several channels."""
+    rate, width, channels = rng.choice((16000, 44100)), 1, rng.choice((2, 3))
+    n = 2 ** 20 + rng.randint(50, 4000)
+    unit = bytes(range(1, 252)) * 8
+    data = (unit * (n * channels // len(unit) + 1))[: n * channels]
+    bps = width * channels
+    for skip_samples in (2 ** 20 + rng.randint(1, 40), 2 ** 20, 2 ** 20 - 1):
+        skip = skip_samples / rate
+        m = rng.choice((None, 10 / rate))
+        a = round(skip * rate)
+        kind = rng.choice(("bytes", "raw_lazy"))
+        case = {"op": "load-slice-large", "kind": kind, "skip_samples": skip_samples, "max_read": m, "fmt": [rate, width, channels], "nsamples": n}
+        ctx.count("load_slices_large_skip")
+        ctx.case(repr(case), True)
+        try:
+            if kind == "bytes":
+                reg = auditok.load(data, skip=skip, max_read=m, sr=rate, sw=width, ch=channels)
+            else:
+                p = os.path.join(tmp, "big.raw")
+                with open(p, "wb") as fp:
+                    fp.write(data)
+                reg = auditok.load(p, skip=skip, max_read=m, sr=rate, sw=width, ch=channels, large_file=True)
+        except Exception as exc:
+            ctx.violation("load-raises:" + type(exc).__name__, {"case": case, "exception": repr(exc)[:200]})
+            continue
+        exp = data[a * bps : (None if m is None else (a + round(m * rate)) * bps)]
+        if bytes(reg) != exp:
+            ctx.violation("load-skip-max_read-differs-from-slice", {"case": case, "got_samples": len(bytes(reg)) // bps, "expected_samples": len(exp) // bps})
+
+
+def check_write_containers(ctx, rng, tmp, data, rate, width, channels):
+    """to_file() documents bytes, bytearray, memoryview, array and numpy.ndarray as data."""
+    import array
+
+    import numpy as np
+
+    if not data:
+        return
+    code = {1: "b", 2: "h", 4: "i"}[width]
+    conts = {"bytearray": bytearray(data), "memoryview": memoryview(data), "array": array.array(code, data),
+             "numpy": np.frombuffer(data, dtype={1: np.int8, 2: np.int16, 4: np.int32}[width])}
+    conts["memoryview_of_array"] = memoryview(conts["array"])
+    cname = rng.choice(sorted(conts))
+    fmt = rng.choice(("wav", "raw"))
+    path = os.path.join(tmp, f"cont.{fmt}")
+    case = {"op": "write-container", "container": cname, "format": fmt, "fmt": [rate, width, channels], "data": data.hex()}
+    ctx.case(repr(case), True)
+    ctx.count("writes_from_other_containers")
+    try:
+        to_file(conts[cname], path, sr=rate, sw=width, ch=channels)
+        got = wav_read(path)[0] if fmt == "wav" else open(path, "rb").read()
+    except Exception as exc:
+        ctx.violation(f"write-from-{cname}-raises:{type(exc).__name__}", {"case": case, "exception": repr(exc)[:200]})
+        return
+    if got != data:
+        ctx.violation(f"written-{fmt}-bytes-differ", {"case": case, "got_len": len(got), "expected_len": len(data)})
+
+
 def run_shard(ctx, upto=None):
     _install_hook()
     conf = TIERS[ctx.tier]
     rng = ctx.rng("cases")
     tmp = tempfile.mkdtemp(prefix="vf-c18-")
     try:
+        if upto is None and (ctx.shard == 2 or (ctx.tier == "thorough" and ctx.shard < 8)):
+            ctx.replay_info = None
+            check_large_skip(ctx, ctx.rng("large"), tmp)
         for i in range(conf["random"] if upto is None else upto + 1):
             ctx.replay_info = {"shard": ctx.shard, "nshards": ctx.nshards, "seed": ctx.seed, "i": i}
             data, rate, width, channels = gen_audio(rng)
@@ -353,7 +415,7 @@ def run_shard(ctx, upto=None):
                 lim = 2 ** (8 * width - 1)
                 vals = [max(-lim, min(lim - 1, rng.choice((-lim, lim - 1, 0, -1, 1, 256, -256, 255, 127, -128)))) for _ in range(channels * rng.randint(1, 6))]
                 data = struct.pack("<%d%s" % (len(vals), E.FMT[width]), *vals)
-            for fn in (check_roundtrip, check_read, check_template_and_exists, check_load_slice, check_load_slice):
+            for fn in (check_roundtrip, check_read, check_template_and_exists, check_load_slice, check_load_slice, check_write_containers):
                 try:
                     fn(ctx, rng, tmp, data, rate, width, channels)
                 except Exception as exc:
@@ -381,5 +443,5 @@ def inconclusive(merged, tier):
     c = merged["counters"]
     need = ["writes_to_file", "writes_save", "writes_wav", "writes_raw", "reads_load", "reads_from_file", "reads_lazy", "reads_eager",
             "roundtrips", "template_saves", "exists_ok_false_checks", "overwrites_ok", "load_slices", "load_slices_with_empty_result",
-            "load_slices_skip_beyond_end", "numpy_exports", "numpy_values_checked", "numpy_reexports_checked"]
+            "load_slices_skip_beyond_end", "numpy_exports", "numpy_values_checked", "numpy_reexports_checked", "load_slices_large_skip", "writes_from_other_containers"]
     return [f"monitor never observed {k}" for k in need if c.get(k, 0) == 0]
